@@ -408,6 +408,61 @@ def model_job(led, model):
     if res['fkG0'] is not None and res['fkG0_cyl'] is not None:
         check_cyl_vs_cone(ctx, led, lin, res['fkG0'], res['fkG0_cyl'], 'fkG0', 'fkG0_cyl')
     led.solver_time('z3-feasibility', ctx.it.solver_time)
+    if hasattr(led, 'calls'):
+        attach_replays(led, model)
+
+
+REPLAY_BASE = dict(m1=2, m2=2, n2=2, r2=250., H=500., laminaprop=[123.55e3, 8.708e3, 0.319, 5.695e3, 5.695e3, 5.695e3],
+                   stack=[30, -30, 45], plyt=0.125)
+
+
+def attach_replays(led, model):
+    """numeric replays on the installed (compiled) package for the failed obligations of one model, one per clause.
+    NOTE the extension modules cannot be rebuilt in this sandbox: the replay shows what the *installed binary* does."""
+    from .. import pyreplay, shell_oracle as O
+    cache = {}
+
+    def get(kind):
+        if kind in cache:
+            return cache[kind]
+        pay = dict(REPLAY_BASE, model=model)
+        if model.startswith('iso_'):
+            pay['iso'] = [71e3, 0.33, 2.]
+        if kind == 'cyl-k0':
+            r = pyreplay.run_real(O.CYLCONE, dict(pay, alphadeg=0., which='k0'))
+            rep = bool(r.get('n_different'))
+        elif kind == 'cyl-kG0':
+            r = pyreplay.run_real(O.CYLCONE, dict(pay, alphadeg=0., which='kG0', loads=[1000., 0.1, 500.]))
+            rep = bool(r.get('n_different'))
+        elif kind == 'psd':
+            r = pyreplay.run_real(O.PSD, dict(pay, alphadeg=25.))
+            rep = bool(r.get('n_negative'))
+        else:
+            r = pyreplay.run_real(O.HESSIAN_ALL, dict(pay, alphadeg=25., s=400))
+            rep = bool(r.get('n_mismatch'))
+        cache[kind] = {'reproduced': rep, 'on': 'installed compiled package (not rebuilt from the .pyx under check)', 'kind': kind,
+                       'input': dict(pay), 'result': r}
+        return cache[kind]
+    for name, a, kw in led.calls:
+        if name != 'fail' or kw.get('replay') is not None:
+            continue
+        ob = a[0]
+        if 'iso' in model and 'equals-general' in ob:
+            continue
+        if '/equals-fk0-at-alpha-0' in ob:
+            kind = 'cyl-k0'
+        elif '/equals-fkG0-at-alpha-0' in ob:
+            kind = 'cyl-kG0'
+        elif '/gram-representation-psd' in ob:
+            kind = 'psd'
+        elif '/energy-hessian' in ob or ('no-stale' in ob and 'clpt' in model and not model.startswith('iso_')):
+            kind = 'hessian'
+        else:
+            continue
+        try:
+            kw['replay'] = get(kind)
+        except Exception as e:
+            kw['replay'] = {'reproduced': False, 'replay_error': repr(e)}
 
 
 class Silent(object):
